@@ -1,1 +1,227 @@
 //! Verification facade (cfg-gated): header-ex client handler family.  See `crate::verif`.
+//!
+//! `VClient` = the real `HeaderExClientHandler` (behind a recording `RequestSender`) plus a
+//! real `PeerTracker`.  Every method forwards to the wrapped item.
+
+use std::io;
+use std::task::{Context, Poll};
+
+use celestia_proto::p2p::pb::{HeaderRequest, HeaderResponse};
+use celestia_types::ExtendedHeader;
+use libp2p::PeerId;
+use libp2p::request_response::OutboundFailure;
+use libp2p::swarm::ConnectionId;
+use tokio::sync::oneshot;
+
+use crate::events::EventChannel;
+use crate::p2p::verif_header_ex::{VerifClient, VerifEvent, VerifReqState, VerifSnapshot};
+use crate::p2p::P2pError;
+use crate::peer_tracker::PeerTracker;
+
+/// Opaque peer identity.
+#[derive(Debug, Clone, Copy, PartialEq, Eq, Hash, PartialOrd, Ord)]
+pub struct VPeer(PeerId);
+
+impl VPeer {
+    pub fn random() -> VPeer {
+        VPeer(PeerId::random())
+    }
+}
+
+/// Mirror of `libp2p::request_response::OutboundFailure`.
+#[derive(Debug, Clone, Copy, PartialEq, Eq, Hash)]
+pub enum VFail {
+    DialFailure,
+    Timeout,
+    ConnectionClosed,
+    UnsupportedProtocols,
+    Io,
+}
+
+/// Mirror of `header_ex::Event`.
+#[derive(Debug, Clone, Copy, PartialEq, Eq, Hash)]
+pub enum VEvent {
+    SchedulePendingRequests,
+    NeedTrustedPeers,
+    NeedArchivalPeers,
+}
+
+/// Mirror of the handler's private per-request `State`.
+#[derive(Debug, Clone, PartialEq)]
+pub struct VReqState {
+    pub request: HeaderRequest,
+    /// "any" | "archival" | "trusted" | "trusted-archival"
+    pub peer_kind: &'static str,
+    pub tries_left: usize,
+    pub closed: bool,
+}
+
+/// Mirror of the handler's private bookkeeping.
+#[derive(Debug, Clone, PartialEq)]
+pub struct VClientSnapshot {
+    /// Requests sent and not yet resolved: (request id, state), sorted by id.
+    pub ongoing: Vec<(u64, VReqState)>,
+    /// Requests waiting for the next schedule (queues in the order trusted,
+    /// trusted-archival, archival, any).
+    pub pending: Vec<VReqState>,
+    pub head_waiters: usize,
+    pub head_req_scheduled: bool,
+    pub tasks: usize,
+    pub queued_events: usize,
+    pub interval_armed: bool,
+    pub stopped: bool,
+}
+
+pub type VReply = oneshot::Receiver<Result<Vec<ExtendedHeader>, P2pError>>;
+
+pub struct VClient {
+    client: VerifClient,
+    tracker: PeerTracker,
+    _events: EventChannel,
+    next_conn: usize,
+}
+
+fn req_state(s: VerifReqState) -> VReqState {
+    VReqState {
+        request: s.request,
+        peer_kind: s.peer_kind,
+        tries_left: s.tries_left,
+        closed: s.closed,
+    }
+}
+
+fn snapshot(s: VerifSnapshot) -> VClientSnapshot {
+    VClientSnapshot {
+        ongoing: s
+            .ongoing
+            .into_iter()
+            .map(|(id, st)| (id, req_state(st)))
+            .collect(),
+        pending: s.pending.into_iter().map(req_state).collect(),
+        head_waiters: s.head_waiters,
+        head_req_scheduled: s.head_req_scheduled,
+        tasks: s.tasks,
+        queued_events: s.queued_events,
+        interval_armed: s.interval_armed,
+        stopped: s.stopped,
+    }
+}
+
+impl VClient {
+    pub fn new() -> VClient {
+        let events = EventChannel::new();
+        VClient {
+            client: VerifClient::new(),
+            tracker: PeerTracker::new(events.publisher()),
+            _events: events,
+            next_conn: 0,
+        }
+    }
+
+    // ---- handler
+
+    /// `HeaderExClientHandler::on_send_request`.
+    pub fn request(&mut self, request: HeaderRequest) -> VReply {
+        let (tx, rx) = oneshot::channel();
+        self.client.on_send_request(request, tx);
+        rx
+    }
+
+    /// `HeaderExClientHandler::schedule_pending_requests` with the wrapped peer tracker.
+    pub fn schedule(&mut self) {
+        self.client.schedule_pending_requests(&self.tracker);
+    }
+
+    /// Everything handed to the `RequestSender` so far: (request id, peer, request).
+    pub fn sent(&self) -> Vec<(u64, VPeer, HeaderRequest)> {
+        self.client
+            .sent()
+            .iter()
+            .map(|(id, peer, req)| (*id, VPeer(*peer), req.clone()))
+            .collect()
+    }
+
+    /// `HeaderExClientHandler::on_response_received`.
+    pub fn respond(&mut self, id: u64, peer: VPeer, responses: Vec<HeaderResponse>) {
+        self.client.on_response_received(peer.0, id, responses);
+    }
+
+    /// `HeaderExClientHandler::on_failure`.
+    pub fn fail(&mut self, id: u64, peer: VPeer, kind: VFail) {
+        let error = match kind {
+            VFail::DialFailure => OutboundFailure::DialFailure,
+            VFail::Timeout => OutboundFailure::Timeout,
+            VFail::ConnectionClosed => OutboundFailure::ConnectionClosed,
+            VFail::UnsupportedProtocols => OutboundFailure::UnsupportedProtocols,
+            VFail::Io => OutboundFailure::Io(io::Error::other("verif")),
+        };
+        self.client.on_failure(peer.0, id, error);
+    }
+
+    /// `HeaderExClientHandler::on_stop`.
+    pub fn stop(&mut self) {
+        self.client.on_stop();
+    }
+
+    /// `HeaderExClientHandler::poll`.
+    pub fn poll(&mut self, cx: &mut Context<'_>) -> Poll<VEvent> {
+        self.client.poll(cx).map(|ev| match ev {
+            VerifEvent::SchedulePendingRequests => VEvent::SchedulePendingRequests,
+            VerifEvent::NeedTrustedPeers => VEvent::NeedTrustedPeers,
+            VerifEvent::NeedArchivalPeers => VEvent::NeedArchivalPeers,
+        })
+    }
+
+    /// One `poll` of the handler (drives its decode tasks and its schedule interval).
+    pub async fn poll_once(&mut self) -> Option<VEvent> {
+        std::future::poll_fn(|cx| match self.poll(cx) {
+            Poll::Ready(ev) => Poll::Ready(Some(ev)),
+            Poll::Pending => Poll::Ready(None),
+        })
+        .await
+    }
+
+    pub fn snapshot(&self) -> VClientSnapshot {
+        snapshot(self.client.snapshot())
+    }
+
+    // ---- peer tracker
+
+    /// `PeerTracker::set_trusted`.
+    pub fn set_trusted(&mut self, peer: VPeer, trusted: bool) {
+        self.tracker.set_trusted(&peer.0, trusted);
+    }
+
+    /// `PeerTracker::mark_as_archival`.
+    pub fn mark_as_archival(&mut self, peer: VPeer) {
+        self.tracker.mark_as_archival(&peer.0);
+    }
+
+    /// `PeerTracker::add_connection` with a fresh connection id, which is returned.
+    pub fn connect(&mut self, peer: VPeer) -> usize {
+        let conn = self.next_conn;
+        self.next_conn += 1;
+        self.tracker
+            .add_connection(&peer.0, ConnectionId::new_unchecked(conn));
+        conn
+    }
+
+    /// `PeerTracker::remove_connection`.
+    pub fn disconnect(&mut self, peer: VPeer, conn: usize) {
+        self.tracker
+            .remove_connection(&peer.0, ConnectionId::new_unchecked(conn));
+    }
+
+    /// (connected, trusted, archival) as the peer tracker sees the peer.
+    pub fn peer_flags(&self, peer: VPeer) -> Option<(bool, bool, bool)> {
+        self.tracker
+            .peer(&peer.0)
+            .map(|p| (p.is_connected(), p.is_trusted(), p.is_archival()))
+    }
+}
+
+impl Default for VClient {
+    fn default() -> Self {
+        VClient::new()
+    }
+}
